@@ -94,7 +94,24 @@ def tee(p):
     return mk('tee', ints('v', n), pre, body)
 
 
-FAMILIES = {'tee': tee}
+def tee_none(p):
+    """items may be None (a missing measurement passed through by identity): None is a value like any other for the joins"""
+    how, n, ctx = p['join'], p['n'], p['ctx']
+
+    def branches():
+        return [rx.pipe(rs.ops.identity()), rx.pipe(rs.ops.map(lambda i: 7 if i is None else i + 1)), rx.pipe(rs.ops.filter(lambda i: i is None or i % 2 == 0))]
+
+    def body(a):
+        items = list(a)
+        mux = ctx == 'root'
+        got = D.run_timed(items, [rs.ops.tee_map(*branches(), join=how)], mux=mux)
+        traces = [D.run_timed(items, [b], mux=mux) for b in branches()]
+        exp = join(traces, how, len(items))
+        return got == exp or fail(ctx=ctx, join=how, items=items, observed=got, expected=exp)
+    return mk('tee_none', [('v%d' % i, 'Optional[int]') for i in range(n)], [], body)
+
+
+FAMILIES = {'tee': tee, 'tee_none': tee_none}
 
 SETS = [['even', 'odd'], ['id', 'even'], ['scan', 'count_r'], ['even', 'last'], ['take1', 'scan'], ['batch2', 'id'], ['rollsum', 'even'],
         ['even', 'odd', 'id'], ['count_r', 'even', 'scan'], ['last', 'odd', 'batch2'], ['tee_zip', 'odd'], ['tee_cl', 'even'],
@@ -121,5 +138,8 @@ def obligations(tier, seed):
                         continue
                     obs.append(Ob(PROP, 'tee', dict(join=how, branches=brs, ctx=ctx, n=n), budget=b, group='tee:' + ctx,
                                   bound=dict(items=n, branches=brs, join=how, ctx=ctx)))
+    for how in ('zip', 'merge', 'combine_latest'):
+        for ctx in ('root', 'plain'):
+            obs.append(Ob(PROP, 'tee_none', dict(join=how, ctx=ctx, n=3 if q else 4), budget=b, group='tee_none', bound=dict(items=3 if q else 4, values='int or None', join=how, ctx=ctx)))
     obs.append(Ob(PROP, 'tee', dict(join='zip', branches=['even', 'odd'], ctx='roll22', n=4, _twin='reach'), budget=60, expect='refute'))
     return obs
